@@ -10,7 +10,7 @@ Open Scope N_scope.
 
 Inductive tcmd :=
 | TAppend (mb : N) (del : bool)
-| TSelect (mb : N)
+| TSelect (mb : N) (ro : bool)                   (* ro: the line said EXAMINE *)
 | TUnselect | TClose | TNoop | TIdle | TDone
 | TFetch (uidk : bool) (s : bytes) (wflags seen : bool)
 | TStore (uidk : bool) (s : bytes) (o : sop) (silent : bool)
@@ -29,7 +29,7 @@ Definition poset (t : option bytes) : option (option nset) :=
 Definition cmd_of (t : tcmd) : cmd :=
   match t with
   | TAppend m d => CAppend m d
-  | TSelect m => CSelect m
+  | TSelect m ro => CSelect m ro
   | TUnselect => CUnselect | TClose => CClose | TNoop => CNoop | TIdle => CIdle | TDone => CDone
   | TFetch u s f sn => match pset s with Some x => CFetch u x f sn | None => CBad end
   | TStore u s o sl => match pset s with Some x => CStore u x o sl | None => CBad end
@@ -145,7 +145,7 @@ Definition p_cmd : P tcmd :=
   op <- p_num ;;
   match op with
   | 0 => m <- p_num ;; d <- p_bool ;; p_ret (TAppend m d)
-  | 1 => m <- p_num ;; p_ret (TSelect m)
+  | 1 => m <- p_num ;; ro <- p_bool ;; p_ret (TSelect m ro)
   | 2 => p_ret TUnselect
   | 3 => p_ret TClose
   | 4 => p_ret TNoop
